@@ -84,11 +84,11 @@ def cwds(d):
 
 
 def write_file_menu(d):
-    w = lambda rel, text: (os.makedirs(os.path.dirname(os.path.join(d, rel)), exist_ok=True), open(os.path.join(d, rel), "w").write(text))
-    w("proj/sub.xbb", "name Sub\nversion 1.0\n\nA({x}-{y}) | 8\nB({y}) | [1, 8]\n")
+    w = lambda rel, text: (os.makedirs(os.path.dirname(os.path.join(d, rel)), exist_ok=True), open(os.path.join(d, rel), "w", encoding="utf-8").write(text))
+    w("proj/sub.xbb", "name Sub\nversion 1.0\n# f\u00fcr \u03c0/2\n\nA({x}-{y}) | 8\nB({y}, \"caf\u00e9 \u00b5m\") | [1, 8]\n")
     w("proj/lib/tri.xbb", "name Tri\nversion 1.0\n\nA | 16\nB | [1, 16]\nC(0.5) | [8, 1]\n")
     w("proj/lib/mid.xbb", "name Mid\nversion 1.0\ninclude \"tri.xbb\"\n\nTri | [2, 0, 1]\nM | 2\n")
-    w("proj/main_rel.xbb", H + 'include "sub.xbb"\n\nSub(x=1, y=2) | [3, 4]\nG({a}+{alpha}) | 0\n')
+    w("proj/main_rel.xbb", H + 'include "sub.xbb"\n\nSub(x=1, y=2) | [3, 4]\nG({a}+{alpha}, "na\u00efve \u03c0") | 0   # \u00e9\n')
     w("proj/main_sub.xbb", H + 'include "lib/tri.xbb"\n\nTri | [5, 6, 7]\nTri | [2, 1, 0]\n')
     w("proj/main_nested.xbb", H + 'include "lib/mid.xbb"\n\nMid | [4, 5, 6]\nTri | [0, 1, 2]\n')
     # other programs under the same relative names, where a process may happen to be working
@@ -299,6 +299,9 @@ def _seed_run(task):
     d, seed, verif = task
     env = dict(os.environ)
     env["PYTHONHASHSEED"] = str(seed)
+    if seed % 7 == 1:
+        # 'every process' includes one started in the C locale without UTF-8 mode (a script file is UTF-8 whatever the locale)
+        env.update(LC_ALL="C", LANG="C", PYTHONUTF8="0", PYTHONCOERCECLOCALE="0")
     cw = cwds(d)
     r = subprocess.run([sys.executable] + pyflags(seed) + ["-c", WORKER % {"verif": verif, "d": d, "cwd": cw[seed % len(cw)], "seed": seed}], capture_output=True, text=True, env=env)
     if r.returncode != 0:
@@ -360,8 +363,9 @@ def run(ctx):
             (o0, s0), (o1, s1) = list(outs.items())[:2]
             # which of the two things that vary between the processes does the difference follow?
             by_cwd = all(len({runs[s]["obs"][k] for s in seeds if s % ncw == c}) <= 1 for c in range(ncw))
+            by_locale = len({runs[s]["obs"][k] for s in seeds if s % 7 == 1}) <= 1 and len({runs[s]["obs"][k] for s in seeds if s % 7 != 1}) <= 1
             by_flag = all(len({runs[s]["obs"][k] for s in seeds if pyflags(s) == fl}) <= 1 for fl in ([], ["-O"], ["-OO"]))
-            Vs.add("C19/working-directory-dependent" if by_cwd else "C19/interpreter-flag-dependent" if by_flag else "C19/hash-seed-dependent", {"script": k, "text": M.get(k, k), "seeds": [s0[0], s1[0]]},
+            Vs.add("C19/working-directory-dependent" if by_cwd else "C19/interpreter-flag-dependent" if by_flag else "C19/locale-dependent" if by_locale else "C19/hash-seed-dependent", {"script": k, "text": M.get(k, k), "seeds": [s0[0], s1[0]]},
                    "script %s: processes with PYTHONHASHSEED=%d (cwd #%d) and %d (cwd #%d) give different observations: %s" % (k, s0[0], s0[0] % ncw, s1[0], s1[0] % ncw, _first_diff(o0, o1).replace(d, "<D>")))
         if k.startswith("file:"):
             o = runs[ref_seed]["obs"][k]
